@@ -13,7 +13,11 @@ PROPS = ["Invoke/Props/C11.lean"]
 TARGETS = ["drv_config"]
 DRIVER_ROOTS = ["Driver/Config.lean"]
 GENERATED = ["Clone"]
-RULE = ("a case is one history: a real Config built from caller-held dicts (defaults, overrides, and in half of the cases "
+RULE = ("[family B, 55%: CLONE HISTORIES - 1-3 clone target classes with their own global defaults used REPEATEDLY; clone() / "
+        "clone(into=same or other class) of the original, of a clone, of a clone-into, at any point; interleaved with edits, "
+        "deletions, load_*(merge=True), load_*(merge=False) made visible by a later merge()/load/env load/write, "
+        "set_runtime_path+load_runtime, set_project_location+load_project, load_shell_env] "
+        "a case is one history: a real Config built from caller-held dicts (defaults, overrides, and in half of the cases "
         "system/user/project/runtime levels loaded from real JSON files that are removed afterwards), a random edit / "
         "reload history, clone() or clone(into=Subclass), then random histories on either object (and on a clone of the "
         "clone); after EVERY operation: the clone reads like the original at the moment of cloning, no other object's deep "
@@ -36,10 +40,23 @@ KNOWN_SIGS = ()  # the clone(into) overwrite was repaired in /repo; its signatur
 
 
 def gen_case(rng):
-    ops = c06.gen_history(rng, maxlen=rng.randint(4, 26), risky=0.25, files=rng.random() < 0.5, clone_p=0.12,
-                          into_p=0.3, coll_p=0.5, max_objs=3)
+    """two families: (A) a random history with a clone somewhere; (B) CLONE HISTORIES - a pool of 1-3 clone target
+    classes (with their own global defaults) used REPEATEDLY, clones (plain / into the same or another class / of a
+    clone / of a clone-into) at any point, interleaved with edits, deletions and level (re)loads: load_*(merge=True),
+    unmerged load_*(merge=False) made visible by a later merge()/load/env load/write, set_runtime_path+load_runtime,
+    set_project_location+load_project, load_shell_env"""
+    if rng.random() < 0.45:
+        ops = c06.gen_history(rng, maxlen=rng.randint(4, 26), risky=0.25, files=rng.random() < 0.5, clone_p=0.12,
+                              into_p=0.3, coll_p=0.5, max_objs=3)
+    else:
+        classes = [c06.tree(rng, dens=0.45) for _ in range(rng.randint(1, 3))]
+        ops = c06.gen_history(rng, maxlen=rng.randint(8, 30), risky=0.2, files=rng.random() < 0.5, clone_p=0.22,
+                              into_p=0.65, coll_p=0.3, max_objs=6, classes=classes, reload_p=0.3, levels=True,
+                              focus=rng.choice([0.0, 0.5, 0.8]))
     if not any(o["op"] == "CLONE" for o in ops):
         k = rng.randint(1, len(ops))
+        while k < len(ops) and ops[k - 1]["op"] == "LOADU":
+            k += 1
         ops.insert(k, {"o": 0, "op": "CLONE"})
     return {"kind": "c11", "ops": ops}
 
@@ -204,7 +221,7 @@ def run(ctx):
     tmp = tempfile.mkdtemp(prefix="verif-c11-")
     lines, rows, ran = [], [], []
     try:
-        for _ in range(ctx.n(4000, 50000)):
+        for _ in range(ctx.n(3000, 45000)):
             case = gen_case(rng)
             ops, row, fail, sig, stats, results = run_case(case, tmp)
             case = {"kind": "c11", "ops": ops}
@@ -216,6 +233,32 @@ def run(ctx):
             out.hist["clones"] += len(clones)
             out.hist["clones_into"] += len([o for o in clones if o.get("into") is not None])
             out.hist["with_files"] += ops[0]["op"] == "NEWF"
+            seen_cls, origin = {}, {0: None}
+            nobj = 1
+            for i, o in enumerate(ops):
+                if o["op"] in ("LOADU", "MERGE", "RUNTIME", "PROJECT"):
+                    out.hist["op_" + o["op"]] += 1
+                if o["op"] != "CLONE":
+                    continue
+                src = o.get("o", 0)
+                key = (src, o.get("cls")) if o.get("into") is not None and o.get("cls") is not None else None
+                if key is not None:
+                    if key in seen_cls:
+                        out.hist["clone_into_same_class_again"] += 1
+                        between = ops[seen_cls[key] + 1:i]
+                        out.hist["...with_unmerged_load_between"] += any(b["op"] == "LOADU" and b.get("o", 0) == src for b in between)
+                        out.hist["...with_defaults_reload_between"] += any(
+                            b["op"] in ("LOAD", "LOADU") and b.get("slot") == "defaults" and b.get("o", 0) == src for b in between)
+                    elif any(k2[0] == src for k2 in seen_cls):
+                        out.hist["clone_into_other_class"] += 1
+                    seen_cls[key] = i
+                out.hist["clone_of_a_clone"] += origin.get(src) is not None
+                out.hist["clone_of_a_clone_into"] += origin.get(src) == "into"
+                out.hist["clone_after_deletion"] += any(b["op"] in ("DI", "DA", "POP", "PI", "CLR") and b.get("o", 0) == src for b in ops[:i])
+                out.hist["clone_after_runtime_or_project_reload"] += any(
+                    b["op"] in ("RUNTIME", "PROJECT") and b.get("o", 0) == src for b in ops[:i])
+                origin[nobj] = "into" if o.get("into") is not None else "plain"
+                nobj += 1
             out.hist["via_collection"] += len([o for o in ops if o.get("via_coll")])
             out.hist["post_clone_ops"] += sum(1 for i, o in enumerate(ops) if clones and i > ops.index(clones[0]) and o["op"] != "CLONE")
             out.hist["shared_containers_between_objects"] += stats.get("shared", 0)
